@@ -469,7 +469,9 @@ pub static C32: PropDef = PropDef {
                         if ok {
                             ctx.nontrivial(&(ri, k, pi, wi));
                         }
-                        ctx.outcome(if ok { "sampled" } else { "rejected" });
+                        ctx.outcome(&format!("{}:{}", ["flat", "gaussian", "drag_gaussian", "erf_square", "hermite_gaussian", "raised_cosine0", "raised_cosine05", "raised_cosine1", "boxcar_kernel"][wi], if ok { "sampled" } else { "rejected" }));
+                        // each case samples the concrete API once per scale/phase pair and the partial API three times
+                        ctx.evals += if thorough { 25 * 4 } else { 12 * 4 };
                         for (clause, detail) in vs {
                             ctx.report(viol(&clause, format!("C32:{clause}:waveform{wi}"), json!({"rate_index": ri, "k": k, "pad_index": pi, "waveform_index": wi}), detail));
                         }
